@@ -453,6 +453,11 @@ pub fn main(args: &[String]) {
                             _ => break 'g,
                         }
                         ply += 1;
+                        // the game's own verdict, asked at every ply as the game loops do (from ply 100 on the
+                        // move-count draw is due -- on positions the game has been asked about before)
+                        if tr.ending(&mut game).is_none() {
+                            break 'g;
+                        }
                         // every ply near the interesting boundaries, every fourth elsewhere
                         if ply <= 14 || (ply >= 96 && ply <= 104) || ply % 4 == 1 {
                             if !tr.engine_move(&mut game, true) || !tr.engine_move(&mut game, false) {
